@@ -5,7 +5,7 @@
 From Coq Require Import List NArith Bool Arith Lia.
 From Verif Require Import Trie.Model Trie.Keys Trie.ProofsWf Trie.Theorems Store.Model Store.Proofs Store.ProofsCommit
   Store.ProofsReach Store.ProofsPrune Store.ProofsLink Store.ProofsTie Store.ExamplesPrune
-  Store.WorkTrie Store.ProofsWork Store.ExamplesWork.
+  Store.WorkTrie Store.ProofsWork Store.ProofsDirty Store.ExamplesWork.
 Import ListNotations.
 Open Scope N_scope.
 
@@ -377,6 +377,52 @@ Section C12_ops.
     (forall k, vkey k -> trie_get V t k = trie_get V t' k) ->
     t = t' /\ Res V (sget V s name) [] (SRef v) t /\ Res V (sget V s' name') [] (SRef v') t.
   Proof. exact (ops_history_canonical V veqb veqb_sound name s chain P v t name' s' chain' P' v' t'). Qed.
+  (* which nodes are dirty: when Trie.Update changes the root, every full / short node of the new root met along the
+     updated key is dirty and no reference is left on that walk — hasher.store, which descends through dirty nodes only,
+     reaches and rewrites every node on the modified path.  (When insert / delete report `false` the old node is kept:
+     last conjunct of worktrie_insert_refines / worktrie_delete_refines.)  Purely structural, no premise. *)
+  Theorem update_dirty_on_path (g : getter V) w key ov d w' :
+    (match ov with
+     | Some v => w_insert V veqb g (S (length key)) w [] key (WValue v)
+     | None => w_delete V g (S (length key)) w [] key
+     end) = Some (d, w') -> d = true -> Spine V w' key.
+  Proof. exact (update_spine V veqb g w key ov d w'). Qed.
+
+  Theorem insert_dirty_on_path (g : getter V) f n p key v n' :
+    w_insert V veqb g f n p key (WValue v) = Some (true, n') -> Spine V n' key.
+  Proof. exact (insert_spine V veqb g f n p key v n'). Qed.
+
+  Theorem delete_dirty_on_path (g : getter V) f n p key n' :
+    w_delete V g f n p key = Some (true, n') -> Spine V n' key.
+  Proof. exact (delete_spine V g f n p key n'). Qed.
+
+  (* the node tree a canonical commit returns (what muxdb's root-node cache keeps, trie.FromRootNode) is itself a Good
+     handle for the new head: coherent with the new store, denoting the committed trie, all its clean nodes and references
+     nodes of the new root *)
+  Theorem committed_handle_derived name (s : store V) chain P newv big skip n t :
+    History V name s chain P -> hist_fresh V s name newv -> P <= fst newv ->
+    match chain with [] => True | vt :: _ => fst (fst vt) < fst newv end ->
+    Coh V (sget V s name) [] n -> WRes V (sget V s name) [] n t -> is_inner V n ->
+    derived V (sget V s name) chain n ->
+    let s' := commit V s name newv (snd (wstore V big skip newv [] n)) in
+    Good V (sget V s' name) (head_old V (sget V s' name) ((newv, t) :: chain)) [] (fst (wstore V big skip newv [] n)) t.
+  Proof. exact (committed_handle_good V name s chain P newv big skip n t). Qed.
+
+  (* one block from ANY Good start handle (a reference to the head root or a kept node tree): never fails, is a canonical
+     commit step, leaves a well-formed trie, and returns a handle that is Good for the new head — so a client may keep
+     its handle over any number of its own consecutive blocks *)
+  Theorem block_from_handle_step name (s : store V) chain P w0 newv big skip ops :
+    History V name s chain P -> all_wfc V chain ->
+    Good V (sget V s name) (head_old V (sget V s name) chain) [] w0 (head_trie V chain) ->
+    hist_fresh V s name newv -> P <= fst newv ->
+    match chain with [] => True | vt :: _ => fst (fst vt) < fst newv end ->
+    Forall (hop_valid V) ops -> lrun veqb ops (head_trie V chain) <> Nil ->
+    exists w' s', block_from V veqb s name w0 newv big skip ops = Some (w', s') /\
+      History V name s' ((newv, lrun veqb ops (head_trie V chain)) :: chain) P /\
+      wfc V (lrun veqb ops (head_trie V chain)) /\
+      Good V (sget V s' name) (head_old V (sget V s' name) ((newv, lrun veqb ops (head_trie V chain)) :: chain)) [] w'
+           (lrun veqb ops (head_trie V chain)).
+  Proof. exact (block_from_step V veqb veqb_sound name s chain P w0 newv big skip ops). Qed.
 End C12_ops.
 
 (* ---- non-vacuity ---- *)
@@ -463,6 +509,17 @@ Proof.
   apply (head_handle_good nat ys5 0 yc5 2).
   apply (History_Inv nat 0 ys5 yc5 2). apply (ops_history_sound nat Nat.eqb nat_eqb_sound 0 ys5 yc5 2). exact yH5.
 Qed.
+Example ex_kept_handle_same_stores :
+  (match ykept0 with Some (_, s) => s = ys1 | None => False end) /\
+  (match ykept1 with Some (w, s) => s = ys2 /\ enc_child nat w = SRef v1 | None => False end).
+Proof. exact y_kept_handle_same_stores. Qed.
+Example ex_delete_dirty :
+  exists w', w_delete nat (sget nat ys2 0) 4 (WRef v1) [] ka = Some (true, w') /\ Spine nat w' ka.
+Proof. exact y_delete_dirty. Qed.
+Example ex_delete_clean :
+  exists w', w_delete nat (sget nat ys2 0) 4 (WRef v1) [] kd = Some (false, w') /\
+             w_resolve_ref nat (sget nat ys2 0) [] v1 = Some w' /\ dirty_paths nat [] w' = [].
+Proof. exact y_delete_clean. Qed.
 
 Print Assumptions commit_preserves_roots.
 Print Assumptions resolve_independent_of_cache.
@@ -503,3 +560,8 @@ Print Assumptions prune_preserves_recent_rounds_from_ops.
 Print Assumptions prune_preserves_recent_from_ops.
 Print Assumptions root_is_mpt_from_ops.
 Print Assumptions ex_ops_history_pruned.
+Print Assumptions update_dirty_on_path.
+Print Assumptions insert_dirty_on_path.
+Print Assumptions delete_dirty_on_path.
+Print Assumptions committed_handle_derived.
+Print Assumptions block_from_handle_step.
